@@ -42,7 +42,7 @@ def make(rng, ft, free_clusters, extra, fsinfo, root_entries=32, subdir_full=Fal
     if subdir_full:
         # fill the sub-directory's only cluster completely (16 slots of 32 bytes in 512)
         k = 0
-        while len(b.dirs[id(sub_b)]['slots']) < 16:
+        while len(b.dirs[id(sub_b)]['slots']) < (16 if subdir_full is True else int(subdir_full)):
             nm = f'F{k}.X'
             b.add(sub_b, nm, (nm.split('.')[0].encode().ljust(8), b'X  '), data=b'', lfn=False)
             sub_t['children'][nm.upper()] = {'kind': 'file', 'name': nm, 'data': bytearray()}
@@ -65,7 +65,14 @@ CASES = [
     ('mkdir', lambda cs, k: dict(op='mkdir', path='/sub/newdir'), False),
     ('create-in-full-subdir', lambda cs, k: dict(op='write', path='/sub/a rather long new name.txt', data=b'', via='open'), False),
     ('rename-into-full-subdir', lambda cs, k: dict(op='rename', path='/keep1.bin', target='/sub/renamed with a long name.bin'), False),
+    # the directory's last cluster has room for SOME of the records the new name needs (3 long-name records + the entry), the
+    # rest needs a cluster the volume cannot give: all or nothing
+    ('create-in-nearly-full-subdir', lambda cs, k: dict(op='write', path='/sub/a rather long new name.txt', data=b'', via='open'), False),
+    ('mkdir-in-nearly-full-subdir', lambda cs, k: dict(op='mkdir', path='/sub/a new directory with a long name'), False),
+    ('rename-into-nearly-full-subdir', lambda cs, k: dict(op='rename', path='/keep1.bin', target='/sub/renamed with a long name.bin'), False),
 ]
+SUBDIR_FILL = {'create-in-full-subdir': True, 'rename-into-full-subdir': True, 'create-in-nearly-full-subdir': 14,
+               'mkdir-in-nearly-full-subdir': 15, 'rename-into-nearly-full-subdir': 13}
 
 
 def run_case(ctx, R, rng, FatFileSystem, ft, free, extra, fsinfo, label, mkop, k, subdir_full=False, root_entries=32):
@@ -278,7 +285,7 @@ def run(ctx, build):
                 need = (k + 2) if scalable else 3
                 for free in range(0, need + 1):
                     run_case(ctx, R, rng, FatFileSystem, ft, free, extra, fsinfo, label, mkop, k,
-                             subdir_full=(label in ('create-in-full-subdir', 'rename-into-full-subdir')))
+                             subdir_full=SUBDIR_FILL.get(label, False))
         # fixed-size root directory running out of slots
         if ft != 'fat32':
             for free_slots in (0, 1, 2, 3, 4, 5):
